@@ -13,15 +13,16 @@ Inductive gs :=
 | GAny                       (* arbitrary code without a yield: completes or raises *)
 | GGuard                     (* the guard; detector true => raises (or the detector call itself raises) *)
 | GYield                     (* delivers one result (or, in a callee skeleton, `return value`) *)
-| GAbort                     (* raise / bare raise / return *)
+| GAbort                     (* raise / bare raise (in a callee skeleton also: return after delivering) *)
+| GReturn                    (* bare `return`: the generator ends silently *)
 | GBreak                     (* break / continue *)
 | GSeq (a b : gs)
 | GChoice (a b : gs)
 | GLoop (b : gs)
 | GTry (body : gs) (hs : list gs) (orelse fin : gs).
 
-(* N: normal completion, A: abrupt (exception or return), B: break/continue *)
-Inductive out := N | A | B.
+(* N: normal completion, A: abrupt by exception, B: break/continue, R: return (silent end of the generator) *)
+Inductive out := N | A | B | R.
 
 (* run s n o: one execution of s delivers n results and ends in o.  Handlers are treated
    coarsely (any handler may take over after any abrupt end of the body, or none): every real
@@ -35,15 +36,18 @@ Inductive run : gs -> nat -> out -> Prop :=
 | R_YieldA : run GYield 1 A                 (* GeneratorExit thrown in at the yield *)
 | R_Abort : run GAbort 0 A
 | R_Break : run GBreak 0 B
+| R_Return : run GReturn 0 R
 | R_SeqN a b n1 n2 o : run a n1 N -> run b n2 o -> run (GSeq a b) (n1 + n2) o
 | R_SeqA a b n1 : run a n1 A -> run (GSeq a b) n1 A
 | R_SeqB a b n1 : run a n1 B -> run (GSeq a b) n1 B
+| R_SeqR a b n1 : run a n1 R -> run (GSeq a b) n1 R
 | R_ChoiceL a b n o : run a n o -> run (GChoice a b) n o
 | R_ChoiceR a b n o : run b n o -> run (GChoice a b) n o
 | R_Loop0 b : run (GLoop b) 0 N
-| R_LoopS b n1 n2 o o1 : run b n1 o1 -> o1 <> A -> run (GLoop b) n2 o -> run (GLoop b) (n1 + n2) o
+| R_LoopS b n1 n2 o o1 : run b n1 o1 -> o1 <> A -> o1 <> R -> run (GLoop b) n2 o -> run (GLoop b) (n1 + n2) o
 | R_LoopBrk b n1 : run b n1 B -> run (GLoop b) n1 N
 | R_LoopA b n1 : run b n1 A -> run (GLoop b) n1 A
+| R_LoopR b n1 : run b n1 R -> run (GLoop b) n1 R
 | R_Try body hs orelse fin n1 o1 n2 o2 n3 o3 o :
     run body n1 o1 -> after o1 hs orelse n2 o2 -> run fin n3 o3 ->
     o = match o3 with N => o2 | _ => o3 end ->
@@ -51,6 +55,7 @@ Inductive run : gs -> nat -> out -> Prop :=
 with after : out -> list gs -> gs -> nat -> out -> Prop :=
 | Af_N hs orelse n o : run orelse n o -> after N hs orelse n o
 | Af_B hs orelse : after B hs orelse 0 B
+| Af_R hs orelse : after R hs orelse 0 R
 | Af_Prop hs orelse : after A hs orelse 0 A
 | Af_H hs orelse h n o : In h hs -> run h n o -> after A hs orelse n o.
 
@@ -59,25 +64,27 @@ Scheme run_ind' := Minimality for run Sort Prop
 Combined Scheme run_mutind from run_ind', after_ind'.
 
 (* abstract result: may yield / may end N / may end A / may end B *)
-Record ares := { ry : bool; rn : bool; ra : bool; rb : bool }.
+Record ares := { ry : bool; rn : bool; ra : bool; rb : bool; rr : bool }.
 Definition aunion (x y : ares) : ares :=
-  {| ry := ry x || ry y; rn := rn x || rn y; ra := ra x || ra y; rb := rb x || rb y |}.
-Definition abot : ares := {| ry := false; rn := false; ra := false; rb := false |}.
+  {| ry := ry x || ry y; rn := rn x || rn y; ra := ra x || ra y; rb := rb x || rb y; rr := rr x || rr y |}.
+Definition abot : ares := {| ry := false; rn := false; ra := false; rb := false; rr := false |}.
 (* y after x completed normally *)
 Definition athen (x y : ares) : ares :=
-  {| ry := ry x || (rn x && ry y); rn := rn x && rn y; ra := ra x || (rn x && ra y); rb := rb x || (rn x && rb y) |}.
+  {| ry := ry x || (rn x && ry y); rn := rn x && rn y; ra := ra x || (rn x && ra y); rb := rb x || (rn x && rb y);
+     rr := rr x || (rn x && rr y) |}.
 
 Fixpoint ana (s : gs) : ares :=
   match s with
-  | GPure => {| ry := false; rn := true; ra := false; rb := false |}
-  | GAny => {| ry := false; rn := true; ra := true; rb := false |}
-  | GGuard => {| ry := false; rn := false; ra := true; rb := false |}
-  | GYield => {| ry := true; rn := true; ra := true; rb := false |}
-  | GAbort => {| ry := false; rn := false; ra := true; rb := false |}
-  | GBreak => {| ry := false; rn := false; ra := false; rb := true |}
+  | GPure => {| ry := false; rn := true; ra := false; rb := false; rr := false |}
+  | GAny => {| ry := false; rn := true; ra := true; rb := false; rr := false |}
+  | GGuard => {| ry := false; rn := false; ra := true; rb := false; rr := false |}
+  | GYield => {| ry := true; rn := true; ra := true; rb := false; rr := false |}
+  | GAbort => {| ry := false; rn := false; ra := true; rb := false; rr := false |}
+  | GReturn => {| ry := false; rn := false; ra := false; rb := false; rr := true |}
+  | GBreak => {| ry := false; rn := false; ra := false; rb := true; rr := false |}
   | GSeq a b => athen (ana a) (ana b)
   | GChoice a b => aunion (ana a) (ana b)
-  | GLoop b => let r := ana b in {| ry := ry r; rn := true; ra := ra r; rb := false |}
+  | GLoop b => let r := ana b in {| ry := ry r; rn := true; ra := ra r; rb := false; rr := rr r |}
   | GTry body hs orelse fin =>
       let r := ana body in
       let h := fold_right aunion abot (map ana hs) in
@@ -85,27 +92,29 @@ Fixpoint ana (s : gs) : ares :=
       let pre := {| ry := ry r || (ra r && ry h) || (rn r && ry o);
                     rn := (rn r && rn o) || (ra r && rn h);
                     ra := ra r || (ra r && ra h) || (rn r && ra o);
-                    rb := rb r || (ra r && rb h) || (rn r && rb o) |} in
+                    rb := rb r || (ra r && rb h) || (rn r && rb o);
+                    rr := rr r || (ra r && rr h) || (rn r && rr o) |} in
       let f := ana fin in
-      {| ry := ry pre || ry f; rn := rn pre && rn f; ra := ra pre || ra f; rb := rb pre || rb f |}
+      {| ry := ry pre || ry f; rn := rn pre && rn f; ra := ra pre || ra f; rb := rb pre || rb f; rr := rr pre || rr f |}
   end.
 
 Definition covers (r : ares) (n : nat) (o : out) : Prop :=
-  (n <> 0 -> ry r = true) /\ match o with N => rn r = true | A => ra r = true | B => rb r = true end.
+  (n <> 0 -> ry r = true) /\ match o with N => rn r = true | A => ra r = true | B => rb r = true | R => rr r = true end.
 
 Lemma fold_union_in (l : list ares) (x : ares) : In x l ->
   let h := fold_right aunion abot l in
-  (ry x = true -> ry h = true) /\ (rn x = true -> rn h = true) /\ (ra x = true -> ra h = true) /\ (rb x = true -> rb h = true).
+  (ry x = true -> ry h = true) /\ (rn x = true -> rn h = true) /\ (ra x = true -> ra h = true) /\ (rb x = true -> rb h = true)
+  /\ (rr x = true -> rr h = true).
 Proof.
   induction l as [|y l IH]; simpl; [tauto|]. intros [->|H].
   - repeat split; intro E; rewrite E; reflexivity.
-  - destruct (IH H) as [H1 [H2 [H3 H4]]].
+  - destruct (IH H) as [H1 [H2 [H3 [H4 H5]]]].
     repeat split; intro E; apply orb_true_iff; right; auto.
 Qed.
 
 Definition P_run (s : gs) (n : nat) (o : out) : Prop := covers (ana s) n o.
 Definition P_after (o1 : out) (hs : list gs) (orelse : gs) (n : nat) (o : out) : Prop :=
-  forall r, match o1 with N => rn r = true | A => ra r = true | B => rb r = true end ->
+  forall r, match o1 with N => rn r = true | A => ra r = true | B => rb r = true | R => rr r = true end ->
     let h := fold_right aunion abot (map ana hs) in
     let oe := ana orelse in
     (n <> 0 -> (ra r && ry h) || (rn r && ry oe) = true)
@@ -113,6 +122,7 @@ Definition P_after (o1 : out) (hs : list gs) (orelse : gs) (n : nat) (o : out) :
        | N => (rn r && rn oe) || (ra r && rn h) = true
        | A => ra r || (ra r && ra h) || (rn r && ra oe) = true
        | B => rb r || (ra r && rb h) || (rn r && rb oe) = true
+       | R => rr r || (ra r && rr h) || (rn r && rr oe) = true
        end.
 
 Ltac btrue := repeat (rewrite ?orb_true_iff, ?andb_true_iff).
@@ -122,7 +132,7 @@ Lemma ana_sound_mut :
   (forall s n o, run s n o -> P_run s n o)
   /\ (forall o1 hs orelse n o, after o1 hs orelse n o -> P_after o1 hs orelse n o).
 Proof.
-  apply run_mutind; unfold P_run, P_after, covers; intros; cbn [ana athen aunion ry rn ra rb] in *.
+  apply run_mutind; unfold P_run, P_after, covers; intros; cbn [ana athen aunion ry rn ra rb rr] in *.
   - split; [intro; congruence | reflexivity].
   - split; [intro; congruence | reflexivity].
   - split; [intro; congruence | reflexivity].
@@ -131,41 +141,46 @@ Proof.
   - split; reflexivity.
   - split; [intro; congruence | reflexivity].
   - split; [intro; congruence | reflexivity].
+  - (* Return *) split; [intro; congruence | reflexivity].
   - (* SeqN *) destruct H0 as [Ya Na], H2 as [Yb Ob]. split.
     + intro Hn. btrue. destruct n1; [right; split; [exact Na | apply Yb; lia] | left; apply Ya; lia].
     + destruct o; btrue; tauto.
   - (* SeqA *) destruct H0 as [Ya Oa]. split; [intro; btrue; left; auto | btrue; tauto].
   - (* SeqB *) destruct H0 as [Ya Oa]. split; [intro; btrue; left; auto | btrue; tauto].
+  - (* SeqR *) destruct H0 as [Ya Oa]. split; [intro; btrue; left; auto | btrue; tauto].
   - destruct H0 as [Y O]. split; [intro; btrue; left; auto | destruct o; btrue; tauto].
   - destruct H0 as [Y O]. split; [intro; btrue; right; auto | destruct o; btrue; tauto].
   - (* Loop0 *) split; [intro; congruence | reflexivity].
-  - (* LoopS *) destruct H0 as [Y1 _], H3 as [Y2 O2]. split.
+  - (* LoopS *) destruct H0 as [Y1 _], H4 as [Y2 O2]. split.
     + intro Hn. destruct n1; [apply Y2; lia | apply Y1; lia].
     + exact O2.
   - (* LoopBrk *) destruct H0 as [Y1 _]. split; [exact Y1 | reflexivity].
   - (* LoopA *) destruct H0 as [Y1 O1]. split; [exact Y1 | exact O1].
+  - (* LoopR *) destruct H0 as [Y1 O1]. split; [exact Y1 | exact O1].
   - (* Try *)
     destruct H0 as [Yb Ob]. specialize (H2 (ana body)).
-    assert (Hpre : match o1 with N => rn (ana body) = true | A => ra (ana body) = true | B => rb (ana body) = true end)
+    assert (Hpre : match o1 with N => rn (ana body) = true | A => ra (ana body) = true | B => rb (ana body) = true
+                          | R => rr (ana body) = true end)
       by exact Ob.
     destruct (H2 Hpre) as [Yh Oh]. destruct H4 as [Yf Of]. subst o. split.
     + intro Hn. btrue.
       destruct n1; [|left; left; left; apply Yb; lia].
       destruct n2; [|left; assert (E : S n2 <> 0) by lia; specialize (Yh E); bhyp Yh; tauto].
       right. apply Yf. lia.
-    + destruct o3; [| btrue; tauto | btrue; tauto].
+    + destruct o3; [| btrue; tauto | btrue; tauto | btrue; tauto].
       destruct o2; bhyp Oh; btrue; tauto.
   - (* Af_N *) destruct H0 as [Yo Oo]. cbn in H1. split.
     + intro Hn. btrue. right. split; [exact H1 | apply Yo; exact Hn].
     + destruct o; btrue; tauto.
   - (* Af_B *) split; [intro; congruence | btrue; tauto].
+  - (* Af_R *) split; [intro; congruence | btrue; tauto].
   - (* Af_Prop *) split; [intro; congruence | btrue; tauto].
   - (* Af_H *)
     destruct H1 as [Yh Oh].
-    pose proof (fold_union_in (map ana hs) (ana h) (in_map ana hs h H)) as [F1 [F2 [F3 F4]]]. cbn in F1, F2, F3, F4.
+    pose proof (fold_union_in (map ana hs) (ana h) (in_map ana hs h H)) as [F1 [F2 [F3 [F4 F5]]]]. cbn in F1, F2, F3, F4, F5.
     split.
     + intro Hn. btrue. left. split; [exact H2 | apply F1, Yh, Hn].
-    + destruct o; btrue; [right | left; right | left; right]; split; auto.
+    + destruct o; btrue; [right | left; right | left; right | left; right]; split; auto.
 Qed.
 
 (* the obligation decided per extractor *)
@@ -176,6 +191,26 @@ Proof.
   unfold guarded. intros G R. apply (proj1 ana_sound_mut) in R. destruct R as [Y _].
   destruct n; [reflexivity|]. rewrite Y in G by lia. discriminate.
 Qed.
+
+(* stronger obligation: when the detector answers true the generator neither delivers anything NOR ends
+   silently (normal end, bare `return`, break out of the body): every execution ends with an exception *)
+Definition rejects (s : gs) : bool :=
+  let r := ana s in negb (ry r) && negb (rn r) && negb (rb r) && negb (rr r).
+
+Theorem rejects_sound s n o : rejects s = true -> run s n o -> n = 0 /\ o = A.
+Proof.
+  unfold rejects. intros G Hr. apply (proj1 ana_sound_mut) in Hr. destruct Hr as [Y O].
+  apply andb_true_iff in G as [G G4]. apply andb_true_iff in G as [G G3]. apply andb_true_iff in G as [G1 G2].
+  apply negb_true_iff in G1, G2, G3, G4. split.
+  - destruct n; [reflexivity|]. rewrite Y in G1 by lia. discriminate.
+  - destruct o; [rewrite O in G2 | reflexivity | rewrite O in G3 | rewrite O in G4]; discriminate.
+Qed.
+
+Example rejects_refuses_silent_return : rejects (GSeq (GChoice GReturn GPure) (GSeq GGuard GYield)) = false.
+Proof. reflexivity. Qed.
+Example rejects_accepts_typical :
+  rejects (GTry (GSeq GAny (GSeq GGuard (GSeq GAny GYield))) [GAbort; GAbort] GPure GPure) = true.
+Proof. reflexivity. Qed.
 
 (* non-vacuity helpers: the skeleton really contains a guard and a delivery point *)
 Fixpoint count_guard (s : gs) : nat :=
